@@ -100,7 +100,8 @@ def contains_array_app(t, arrays: ArrayModel):
 def check_index_lambda(h, il, node, spec, arrays: ArrayModel, *,
                        clause_prefix, value_props=("C02",),
                        bounds_props=("C11",), meta_props=("C02",),
-                       check_meta=True):
+                       check_meta=True, spec_shape=None,
+                       shape_props=("C02", "C03"), premise=None):
     """Obligations for one lowered node.
 
     :arg il: the IndexLambda returned by the code under verification
@@ -112,6 +113,16 @@ def check_index_lambda(h, il, node, spec, arrays: ArrayModel, *,
                f"got {type(il).__name__}", props=meta_props)
         return
     node_shape = h.interp.getattr(node, "shape")
+    if spec_shape is not None:
+        # the node's own (eagerly inferred) shape is NumPy's
+        if len(spec_shape) != len(node_shape):
+            h.fail(f"{clause_prefix}.node-shape", "rank differs from NumPy's",
+                   props=shape_props)
+            return
+        for d, (a, b) in enumerate(zip(node_shape, spec_shape, strict=True)):
+            h.oblige(f"{clause_prefix}.node-shape[{d}]",
+                     shape_term(a) == (b if z3.is_expr(b) else shape_term(b)),
+                     props=shape_props)
     # (i) metadata
     if check_meta:
         if len(il.shape) != len(node_shape):
@@ -130,23 +141,32 @@ def check_index_lambda(h, il, node, spec, arrays: ArrayModel, *,
     # (ii)/(iii) value
     ivars = [z3.Int(f"i{d}") for d in range(len(node_shape))]
     box = in_box(ivars, node_shape)
+    if premise is not None:
+        # documented precondition on the *data* (e.g. index arrays hold valid
+        # indices); part of the antecedent of the value obligation only
+        vbox = z3.And(box, premise(ivars))
+    else:
+        vbox = box
     D = Den(arrays, il.bindings, lambda a: h.interp.getattr(a, "shape"),
             size_param=size_param_term)
     env = {f"_{d}": v for d, v in enumerate(ivars)}
     got = D.top(il.expr, env)
     want = spec(ivars)
-    oblige_equal_den(h, f"{clause_prefix}.value", box, got, want,
+    oblige_equal_den(h, f"{clause_prefix}.value", vbox, got, want,
                      props=value_props)
     # C11: every affine access within bounds under its guards
     for k, acc in enumerate(D.accesses):
         shp = h.interp.getattr(acc.array, "shape")
         for d, (idx, n) in enumerate(zip(acc.indices, shp, strict=True)):
-            if contains_array_app(idx, arrays):
+            if D.is_data_dependent(idx):
                 # data-dependent component: caller's responsibility
                 continue
+            hi = shape_term(n)
+            if h.canary == "tight-bounds":
+                hi = hi - 1
             h.oblige(f"{clause_prefix}.in-bounds[{acc.name}#{k}.{d}]",
                      z3.Implies(z3.And(box, acc.guard),
-                                z3.And(idx >= 0, idx < shape_term(n))),
+                                z3.And(idx >= 0, idx < hi)),
                      props=bounds_props)
 
 
